@@ -6,6 +6,7 @@ All theorems are for every operation sequence, every table size, every initial t
 which each group is programmed at most once, every answer and every `set.pop()` choice.
 -/
 import BV.Proofs.McastLemmas
+import BV.Proofs.Src.Mcast
 namespace BV.Props.C15
 open BV.Mcast
 
@@ -248,5 +249,71 @@ example :
     let r := run {} [(7, 1), (0, 0), (9, 0)]
       [.init, .subscribe 5 1 .ok, .subscribe 6 2 .timeout, .subscribe 6 2 (.reject 3), .unsubscribe 7 .ok]
     r.1.mc = [(5, 1)] ∧ r.1.avail = [2, 0] ∧ r.2.1 = [(7, 0), (5, 1), (9, 0)] := by decide
+
+/-! ### the same statements over the coroutines generated from bellows/multicast.py (BV/Gen/SrcMcast.lean)
+
+`Multicast.subscribe`, `Multicast.unsubscribe` and `Multicast._initialize` are translated from the syntax tree on every run (each
+`await` a call on a scripted command layer, `set.pop()` a scripted choice); `BV.Proofs.Src.Mcast` proves them to be the steps of
+the model above.  Here the property's clauses are restated over the generated definitions. -/
+section Src
+open BV.Py BV.Src.Mcast BV.Proofs.Src.Mcast
+
+/-- the translated `subscribe` *is* the model's subscribe step -/
+theorem c15_src_subscribe (m : M) (tab : Tab) (g c : Nat) (cs : List Nat) (r : Resp) (rest : List Resp) (a : Ans)
+    (hw : WF m) (hg : g < 65536) (hs : m.script = r :: rest) (hc : m.choices = c :: cs)
+    (hca : m.available ≠ [] → c ∈ m.available) (ha : ansOf r = some a) :
+    absH (Multicast.subscribe g m).2 = (step (absH m) tab (.subscribe g c a)).1 ∧
+    WF (Multicast.subscribe g m).2 ∧
+    resRel (Multicast.subscribe g m).1 (step (absH m) tab (.subscribe g c a)).2.2.res ∧
+    writeRel ((Multicast.subscribe g m).2.trace.drop m.trace.length) (step (absH m) tab (.subscribe g c a)).2.2.write :=
+  subscribe_eq m tab g c cs r rest a hw hg hs hc hca ha
+
+/-- the translated `unsubscribe` *is* the model's unsubscribe step -/
+theorem c15_src_unsubscribe (m : M) (tab : Tab) (g : Nat) (r : Resp) (rest : List Resp) (a : Ans)
+    (hw : WF m) (hs : m.script = r :: rest) (ha : ansOf r = some a) :
+    absH (Multicast.unsubscribe g m).2 = (step (absH m) tab (.unsubscribe g a)).1 ∧
+    WF (Multicast.unsubscribe g m).2 ∧
+    resRel (Multicast.unsubscribe g m).1 (step (absH m) tab (.unsubscribe g a)).2.2.res ∧
+    writeRel ((Multicast.unsubscribe g m).2.trace.drop m.trace.length) (step (absH m) tab (.unsubscribe g a)).2.2.write :=
+  unsubscribe_eq m tab g r rest a hw hs ha
+
+/-- the translated `_initialize` *is* the model's table scan (all reads succeeding) -/
+theorem c15_src_initialize (m : M) (rows : List Row) (rest : List Resp) (stc : StatusV) (hc : statusIsOk stc = true)
+    (hall : ∀ r ∈ rows, statusIsOk r.1 = true)
+    (hs : m.script = Resp.cfg stc rows.length :: (rows.map (fun r => Resp.entry r.1 r.2) ++ rest)) :
+    ∃ m', Multicast.u_initialize m = (.ok (), m') ∧ absH m' = scan (tabOf rows) ∧ m'.script = rest ∧ WF m' ∧
+      m'.trace = m.trace ++ .getConfig 6 :: (List.range rows.length).map MEv.getEntry :=
+  initialize_eq m rows rest stc hc hall hs
+
+/-- **a subscribe that fails - the table write is rejected or the command raises - leaves the number of free indices
+unchanged** (source level; the clause the `fix:` commit 76e3f6a restored) -/
+theorem c15_src_failed_subscribe_keeps_free (m : M) (tab : Tab) (g c : Nat) (cs : List Nat) (r : Resp) (rest : List Resp) (a : Ans)
+    (inv : Inv (absH m) tab) (hw : WF m) (hg : g < 65536) (hs : m.script = r :: rest) (hc : m.choices = c :: cs)
+    (hca : m.available ≠ [] → c ∈ m.available) (ha : ansOf r = some a)
+    (hfail : ∀ st, (Multicast.subscribe g m).1 = .ok st → statusIsOk st = false) :
+    (Multicast.subscribe g m).2.available.length = m.available.length := by
+  obtain ⟨h1, -, h3, -⟩ := subscribe_eq m tab g c cs r rest a hw hg hs hc hca ha
+  have hne : (step (absH m) tab (.subscribe g c a)).2.2.res ≠ .ok := by
+    intro he
+    rw [he] at h3
+    obtain ⟨st, e1, e2⟩ := h3
+    have := hfail st e1
+    rw [e2] at this
+    exact Bool.noConfusion this
+  have := c15_failed_call_keeps_free inv (.subscribe g c a) (by simp)
+    (by intro g' c' a' he hne'; cases he; exact hca hne') hne
+  rw [← h1] at this
+  exact this
+
+/-- non-vacuity: a table with one free slot; the write is refused with a failure status - the slot is free again, the refusal
+is what the caller gets, one table write was issued -/
+example : Multicast.subscribe 5 { available := [0], script := [.one (.ember 1)], choices := [0] } =
+    (.ok (.ember 1), { available := [0], script := [], choices := [],
+                       trace := [.setEntry 0 { multicastId := 5, endpoint := 1, networkIndex := 0 }] }) := by decide +kernel
+
+example : (Multicast.subscribe 5 { available := [0], script := [.raises "TimeoutError"], choices := [0] }).2.available = [0] := by
+  decide +kernel
+
+end Src
 
 end BV.Props.C15
